@@ -8,6 +8,7 @@ pub mod c07;
 pub mod c08;
 pub mod c09;
 pub mod c10;
+pub mod c11;
 pub mod c12;
 pub mod c13;
 pub mod c14;
@@ -34,6 +35,7 @@ pub fn run_property(ctx: &mut Ctx) -> bool {
         "C08" => c08::run(ctx),
         "C09" => c09::run(ctx),
         "C10" => c10::run(ctx),
+        "C11" => c11::run(ctx),
         "C12" => c12::run(ctx),
         "C13" => c13::run(ctx),
         "C14" => c14::run(ctx),
@@ -84,6 +86,7 @@ pub fn replay(body: &Value) -> i32 {
         "recovery" => replay_part(&c02::C02Part, body),
         "termination" => replay_part(&c03::C03Part, body),
         "final" => replay_part(&c04::C04Part, body),
+        "isolation" => replay_part(&c11::C11Part, body),
         "identity" => replay_part(&c01::C01Part, body),
         "decode" => replay_part(&c06::DecPart, body),
         "crc" => replay_part(&c15::CrcPart, body),
